@@ -411,8 +411,10 @@ def cli_run_set(cwd, files, kinds, jobs, fail_fast, keep, rnd, sigint_at=0, late
 def write_set(cwd, n, rnd, kinds_pool, shadows=False):
     os.makedirs(os.path.join(cwd, "t"), exist_ok=True)
     files, kinds = [], {}
+    # sometimes what distinguishes the files comes after a long common prefix
+    stem = ("p" * 64) if rnd.random() < 0.25 else "f"
     for i in range(n):
-        f = f"t/f{i:02d}{rnd.choice(['', '-x', '.y', '_z'])}.slt"
+        f = f"t/{stem}{i:02d}{rnd.choice(['', '-x', '.y', '_z'])}.slt"
         k = rnd.choice(kinds_pool)
         open(os.path.join(cwd, f), "w").write(file_text(f, k, rnd, linger=shadows and k == "pass" and rnd.random() < 0.08))
         files.append(f)
@@ -529,8 +531,10 @@ def profile_cli19(rnd, n, thorough, out):
         if not thorough and len(ks) > 5:
             ks = sorted(rnd.sample(ks, 5))
         for k in ks:
-            r, tags, ju, evs, cause, oracle = cli_run_set(cwd, files, kinds, jobs, False, False, rnd, sigint_at=k, latency=lat)
-            tag = f"cli19 set={si} jobs={jobs} sigint_at={k}/{nreq}"
+            # (keeping the databases of FAILED files does not extend to cancelled or skipped ones)
+            keep = jobs > 0 and rnd.random() < 0.4
+            r, tags, ju, evs, cause, oracle = cli_run_set(cwd, files, kinds, jobs, False, keep, rnd, sigint_at=k, latency=lat)
+            tag = f"cli19 set={si} jobs={jobs} keep={keep} sigint_at={k}/{nreq}"
             sig = any(e["ev"] == "sigint" for e in r.events)
             # (k = nreq is the very last request of the run, the final DROP DATABASE or the last record:
             # once its reply is in the run is over, and whether the signal is noticed before the exit
@@ -556,7 +560,7 @@ def profile_cli19(rnd, n, thorough, out):
                     t_owner = TAGMAP[tags.get(owner, [None])[0]]
                     if oracle is None and t_owner not in ("cancelled", "ok"):
                         oracle = f"the file in flight at Ctrl-C ({owner}) is reported {t_owner}"
-            out.add(climon_case(jobs, False, r.exit, True, files, kinds, tags, ju, evs), "accept", tag,
+            out.add(climon_case(jobs, keep, r.exit, True, files, kinds, tags, ju, evs), "accept", tag,
                     ("C19|" + oracle) if oracle else None)
         # ---- Ctrl-C while a file waits in a `sleep` record (or a retry back-off): the wait is cut short,
         # nothing more is sent for the file, the CLI exits promptly
@@ -606,6 +610,17 @@ def profile_cli19(rnd, n, thorough, out):
                     oracle = f"under --fail-fast these files were started after the first failure: {bad}"
             out.add(climon_case(jobs, False, r.exit, True, files, kinds2, tags, ju, evs), "accept", tag,
                     ("C19|" + oracle) if oracle else None)
+            # one Ctrl-C while the run that fail-fast already stopped is cleaning up (first DROP request):
+            # the clean-up still completes and the report is still written
+            drops = [e["args"][0] for e in r.events if e["ev"] == "sql" and
+                     bytes.fromhex(e["args"][1]).decode("utf-8", "replace").startswith("DROP DATABASE")]
+            if jobs and drops and pos == 0:
+                r, tags, ju, evs, cause, oracle = cli_run_set(cwd, files, kinds2, jobs, True, False, rnd,
+                                                              sigint_at=int(drops[0]), latency=60)
+                if oracle is None and ju is None:
+                    oracle = "no JUnit report was written (fail-fast stop, then one Ctrl-C during the clean-up)"
+                out.add(climon_case(jobs, False, r.exit, True, files, kinds2, tags, ju, evs), "accept",
+                        f"cli19 set={si} jobs={jobs} failfast, then Ctrl-C at the first DROP request", ("C19|" + oracle) if oracle else None)
         shutil.rmtree(cwd, ignore_errors=True)
 
 
@@ -683,7 +698,7 @@ def gen_cli_tree(rnd, multi=0):
             elif c == 3:
                 out += rnd.choice(["control sortmode rowsort\n\n", "hash-threshold 2\n\n", "onlyif external\n", "skipif external\n",
                                    "connection c1\n", "sleep 1ms\n\n", "subtest s\n\n"] +
-                                  (["onlyif L1\n", "skipif L1\n", "onlyif L2\n", "skipif L2\nonlyif L1\n"] if multi else []))
+                                  (["onlyif L1\n", "skipif L1\n", "onlyif L2\n", "skipif L2\nonlyif L1\n", "onlyif x,y\n", "skipif x\n", "skipif x,y\n"] if multi else []))
             else:
                 hdr, sql, block = rnd.choice(pool)
                 ctr[0] += 1
@@ -959,7 +974,7 @@ def profile_climulti(rnd, n, thorough, out):
         tree, sqls, extra = gen_cli_tree(rnd, multi=rnd.randint(1, 3))
         roots = ["root.slt"] + extra
         rnd.shuffle(roots)
-        labels = [l for l in ("L1", "L2") if rnd.random() < 0.5]
+        labels = [l for l in ("L1", "L2", "x,y") if rnd.random() < 0.5]
         overridden = None
         for mode in ("run", "override", "rerun"):
             # `rerun`: check mode on the overridden tree, whose expectations are (mostly) right, so that
